@@ -364,6 +364,28 @@ func c06R5(c *Ctx) {
 
 func c06R6(c *Ctx) {
 	rule := c.R.Rule("R6", "startup reconciliation is reached: ConnectApp calls RecoverFromCrash with the application's Info() on every path with a genesis, and a returned error is fatal", 2)
+	// the fast-sync pool starts at the reconciled store height: the height read for NewBlockPool follows the
+	// "store one ahead of state" adjustment
+	if g := c.Anchor(rule, "gemmill/blockchain.NewBlockchainReactor"); g != nil {
+		var hack *ssa.Store
+		for _, st := range g.FieldStores("gemmill/blockchain.BlockStore", "height") {
+			hack = st
+		}
+		for _, ci := range g.CallsTo(cfgx.Named("gemmill/blockchain.NewBlockPool")) {
+			arg := ci.Common().Args[0]
+			ok := false
+			detail := "start height is " + shorten(exprOf(arg))
+			if bo, isBo := arg.(*ssa.BinOp); isBo && exprOf(bo.Y) == "1" {
+				if hc, isCall := bo.X.(*ssa.Call); isCall && cfgxCallee(hc) == "gemmill/blockchain.(*BlockStore).Height" {
+					ok = hack == nil || !g.Reaches(hc, hack)
+					if !ok {
+						detail = "store.Height() is read before the adjustment `store.height -= 1`"
+					}
+				}
+			}
+			c.R.Ob(rule, "NewBlockchainReactor:pool-starts-at-reconciled-height+1", ok, c.Pos(ci), fname(g), "after a crash between SaveBlock and State.Save the store is one ahead and is stepped back so that block is re-applied; the pool must start from the adjusted height: "+detail)
+		}
+	}
 	f := c.Anchor(rule, "gemmill.(*Angine).ConnectApp")
 	if f == nil {
 		return
